@@ -442,8 +442,8 @@ def r_pairing(ctx: Ctx, model, mach):
     ctx.floor("two-isotherm retrievals interpreted", n, 2)
 
 
-def r_bool(ctx: Ctx, model, mach):
-    ctx.rule("D-read(bool): isotherm_to_db interpreted on metadata {True, False, 1, 0, text}: only booleans are stored under the two "
+def r_bool(ctx: Ctx, model, mach, prop="C08", rule="D-read"):
+    ctx.rule(f"{rule}(bool): isotherm_to_db interpreted on metadata (True, False, 1, 0, text): only booleans are stored under the two "
              "boolean spellings, numbers and text as themselves; check_SQL_bool inverts exactly those two spellings")
     from .C09 import mk_iso
     from ..num import Num
@@ -475,20 +475,20 @@ def r_bool(ctx: Ctx, model, mach):
     encs = set()
     for bound in bound_paths:
         missing = [k_ for k_ in props if k_ not in bound]
-        ctx.ob(not missing, Finding("C08.D-read", w.where, f"bool-encode:not-stored:{missing}", f"isotherm_to_db does not store the metadata {missing}"),
+        ctx.ob(not missing, Finding(f"{prop}.{rule}", w.where, f"bool-encode:not-stored:{missing}", f"isotherm_to_db does not store the metadata {missing}"),
                nontrivial_key=("bool-enc", "stored"))
         if missing:
             continue
         eT, eF = bound["flagT"], bound["flagF"]
         okb = isinstance(eT, str) and isinstance(eF, str) and eT != eF
-        ctx.ob(okb, Finding("C08.D-read", w.where, "bool-encode:spelling", f"True / False are stored as {eT!r} / {eF!r}; two distinct text spellings required "
+        ctx.ob(okb, Finding(f"{prop}.{rule}", w.where, "bool-encode:spelling", f"True / False are stored as {eT!r} / {eF!r}; two distinct text spellings required "
                             "(SQLite has no boolean type: 1/0 would come back as numbers)"), nontrivial_key=("bool-enc", "spelling"))
         if okb:
             encs.add((eT, eF))
         for nm in ("one", "zero", "text"):
             v = bound[nm]
             same = I.py_eq(v, props[nm]) is True and not isinstance(v, bool) and type(v) is type(props[nm])
-            ctx.ob(same, Finding("C08.D-read", w.where, f"bool-encode:{nm}-stored-as-{v!r}",
+            ctx.ob(same, Finding(f"{prop}.{rule}", w.where, f"bool-encode:{nm}-stored-as-{v!r}",
                                  f"the metadata value {props[nm]!r} is stored as {v!r}: a number equal to 1 / 0 (or a text) is not a boolean and must "
                                  "come back as what it was (the retrieved isotherm would differ from the stored one)"),
                    nontrivial_key=("bool-enc", nm))
@@ -499,7 +499,7 @@ def r_bool(ctx: Ctx, model, mach):
     for enc, want in [(eT, True), (eF, False)] + [(x, x) for x in others]:
         outs = I.explore(lambda I: I.call_func(f, [enc], {}, None))
         ok = len(outs) == 1 and outs[0].kind == "ok" and outs[0].value == want and (outs[0].value is want or isinstance(want, str))
-        ctx.ob(ok, Finding("C08.D-read", f.where, f"bool-decode:{enc}",
+        ctx.ob(ok, Finding(f"{prop}.{rule}", f.where, f"bool-decode:{enc}",
                            f"check_SQL_bool({enc!r}) gives {outs[0]!r}; required {want!r}: only the writer's own encodings "
                            f"({eT!r}/{eF!r}) stand for booleans, any other text property must come back as the text it was"),
                nontrivial_key=("bool", enc))
